@@ -540,6 +540,8 @@ def spec_legal(case):
         if len(shs[1]) != 2 or len(shs[0]) < 1 or shs[0][-1] != shs[1][1]:
             return False
         if len(shs) > 2:
+            if shs[2] == ():
+                return None        # `if bias:` raises for a 0-d bias; not promised by the docstring either way
             return bshape(shs[2], shs[0][:-1] + (shs[1][0],)) is not None
         return True
     if op in ("sum", "mean", "max", "min"):
@@ -767,10 +769,6 @@ def finding_class(case, v):
             return "0-d operand with int dim: accepted forward, backward raises"
         if op in ("addmm", "linear") and any(len(s) < 2 for s in shs[1:2] + (shs[2:3] if op == "addmm" else [])) or (op == "linear" and len(shs[0]) < 2):
             return "1-D matrix operand: accepted forward, backward raises"
-    if v["kind"] == "rejected-legal" and op == "linear" and len(shs) > 2 and shs[2] == ():
-        return "0-d bias rejected (truth value of a Tensor is len())"
-    if v["kind"] == "accepted-illegal" and op == "linear":
-        return "linear accepts shapes torch rejects"
     return v["kind"]
 
 
